@@ -76,11 +76,12 @@ class Workload:
         seed = spec["seed"]
         modes = spec.get("server_modes", True)
         base_delay = spec.get("resp_delay", 0.0)
+        max_body = spec.get("max_body", 40000)
 
         def responder(req, origin):
             tok = req.token or b"-"
             rr = _rng_for(seed, tok)
-            size = rr.choice([0, 10, 500, 5000, 40000])
+            size = min(rr.choice([0, 10, 500, 5000, 40000]), max_body)
             body = b"echo:%b:tr%d:n%d:%b:" % (tok, req.tr, req.ordinal, origin.name.encode()) + (b"%x" % zlib.crc32(tok)) * (size // 8)
             mode = rr.choice(SERVER_MODES_H1) if (modes and req.proto == "h1") else "keepalive"
             delay = base_delay * rr.choice([0, 1, 1, 3])
@@ -97,10 +98,24 @@ class Workload:
                 return Resp(200, b"OK", hs, body, framing="close", delay=delay)
             return Resp(200, b"OK", hs, body, delay=delay, body_delay=delay / 2 if delay else 0.0)
 
+        h2s = {"data_chunk": 4000}
+        if spec.get("h2_settings"):
+            h2s["settings"] = {int(k): v for k, v in spec["h2_settings"].items()}
+        if spec.get("h2_script"):
+            extra = dict(spec["h2_script"])
+            if "settings" in extra:
+                extra["settings"] = {int(k): v for k, v in extra["settings"].items()}
+            for act in extra.get("actions", []):
+                if "settings" in act:
+                    act["settings"] = {int(k): v for k, v in act["settings"].items()}
+            h2s.update(extra)
+        if spec.get("segmentation") == "random":
+            net.segmentation = simnet.Segmentation("random", rng=random.Random(spec["seed"] + 3))
+        elif spec.get("segmentation") == "bytes":
+            net.segmentation = simnet.Segmentation("fixed", 7)
         for i in range(spec["n_origins"]):
             o = endpoints.Origin(net, f"o{i}.test", port, tls=tls, alpn=alpn, responder=responder, register=reg,
-                                 h2_script={"data_chunk": 4000, "settings": {int(k): v for k, v in spec["h2_settings"].items()}} if spec.get("h2_settings")
-                                 else {"data_chunk": 4000})
+                                 h2_script=dict(h2s))
             o.early = spec.get("early", False)
             self.origins.append(o)
         proxy_cfg = None
